@@ -235,6 +235,18 @@ def list_tokens(l):
     return [len(l)] + list(l)
 
 
+def _big_stack():
+    """the extracted model is not tail-recursive: give it a large stack"""
+    import resource
+    try:
+        resource.setrlimit(resource.RLIMIT_STACK, (resource.RLIM_INFINITY, resource.RLIM_INFINITY))
+    except (ValueError, OSError):
+        try:
+            resource.setrlimit(resource.RLIMIT_STACK, (1 << 30, 1 << 30))
+        except (ValueError, OSError):
+            pass
+
+
 def run_both(scratch, binary, cases, cfg_home=None, timeout=600, extra_env=None, tag="cases"):
     """Run implementation and model on the same case file.
     Returns dict id -> {'impl': [...]|None, 'panic': str|None, 'model': [...]|None, 'oracles': {name: bool}, 'err': str|None}"""
@@ -281,7 +293,7 @@ def run_both(scratch, binary, cases, cfg_home=None, timeout=600, extra_env=None,
                 r["err"] = "impl: unparsable result"
     t0 = time.time()
     p = subprocess.run([os.path.join(OCAML, "driver"), cf, rf], stdout=subprocess.PIPE, stderr=subprocess.PIPE,
-                       text=True, timeout=timeout * 2)
+                       text=True, timeout=max(120, timeout), preexec_fn=_big_stack)
     t_model = time.time() - t0
     if p.returncode != 0:
         raise Broken("correspondence", "model driver failed", p.stderr[-2000:])
